@@ -59,16 +59,44 @@ class TD5(TypedDict):
     k: NotRequired[int]
 
 
+class TD6(TypedDict):
+    a: Optional[int]
+    b: NotRequired[int]
+
+
+class ThriftE:
+    """a Thrift-generated enum: pyanalyze treats the class as a type whose values are ints (hasattr _VALUES_TO_NAMES)"""
+    _VALUES_TO_NAMES = {0: "A", 1: "B"}
+    _NAMES_TO_VALUES = {"A": 0, "B": 1}
+
+
+import abc
+
+_T_contra = typing.TypeVar("_T_contra", contravariant=True)
+
+
+class SinkP(typing.Protocol[_T_contra]):
+    def put(self, x: _T_contra) -> None: ...
+
+
+class IntBox:
+    def put(self, x: int) -> None:
+        pass
+
+
 def objects():
     return [0, 1, True, 1.5, 1j, "a", "", b"a", None, (1, "a"), (1, 2), (), [1, 2], ["a"], [], {"a": 1}, {1: "a"}, {}, {1}, frozenset({1}),
-            {"x"}, {1.5}, {1, "a"}, [{"x"}], frozenset({"x"}), range(3), Color.RED, A(), B(), int, A, B, str, (1, "s", 1.5), (1, 2.5), (1, "s", "t", 0.5), Point(1, 2), Celsius(36.6), {"a": 1, "b": "x"}, {"a": 1, "b": 5}, {"a": "x"}, {"a": "x", "k": 1}]
+            {"x"}, {1.5}, {1, "a"}, [{"x"}], frozenset({"x"}), range(3), Color.RED, A(), B(), int, A, B, str, (1, "s", 1.5), (1, 2.5), (1, "s", "t", 0.5), Point(1, 2), Celsius(36.6), {"a": 1, "b": "x"}, {"a": 1, "b": 5}, {"a": "x"}, {"a": "x", "k": 1},
+            {"a": None}, {"a": 1, "b": None}, collections.abc.Sized]
 
 
 def types():
     return [int, bool, float, complex, str, bytes, object, type(None), Literal[1], Literal["a"], Literal[True], Optional[int], Union[int, str],
             List[int], List[str], Set[int], FrozenSet[int], Dict[str, int], Tuple[int, str], Tuple[int, ...], Tuple[()], Sequence[int], Mapping[str, int],
             Iterable[int], Iterable[str], typing.AbstractSet[str], Set[str], List[Set[int]], Sequence[str], Type[A], Type[int], A, B, Color, Literal[Color.RED], Annotated[int, "x"], Optional[List[int]], List[Optional[int]],
-            Dict[str, List[int]], Tuple[int, Tuple[str, int]], Sequence[Union[int, str]], Tuple[int, int], TD1, TD2, TD3, TD4, TD5, Optional[complex], Tuple[int, typing_extensions.Unpack[Tuple[str, ...]], float]]
+            Dict[str, List[int]], Tuple[int, Tuple[str, int]], Sequence[Union[int, str]], Tuple[int, int], TD1, TD2, TD3, TD4, TD5, Optional[complex], Tuple[int, typing_extensions.Unpack[Tuple[str, ...]], float],
+            Union[Literal[0, 1, 2, 3, 4, 5, 6, 7, 8, 9], List[int]], Union[Literal["a", "b", "c", "d", "e", "f", "g", "h", "i", "j"], Dict[str, int], Set[int]], TD6,
+            type, abc.ABCMeta, Type[Color], ThriftE]
 
 
 import typing_extensions
@@ -153,6 +181,9 @@ def member(o, T):
                 return False
         # open TypedDict: extra keys with arbitrary values are allowed structurally
         return all(isinstance(k, str) for k in o)
+    if T is ThriftE:
+        # the values of a Thrift enum are the ints it names (the class is a namespace of int constants, it has no instances of its own)
+        return isinstance(o, int) and o in ThriftE._VALUES_TO_NAMES
     if isinstance(T, type):
         return acc(T, type(o))
     raise NotImplementedError(T)
@@ -208,8 +239,11 @@ def search_types(skip_known=True):
                         # documented leniency L2: a fixed-length tuple type accepts a variadic tuple of compatible elements
                         if typing.get_origin(ta) is tuple and typing.get_origin(tb) is tuple and Ellipsis in typing.get_args(tb):
                             continue
+                        # documented leniency L3: the bare class `type` is read as type[Any] (gradual), so type[C] accepts it
+                        if tb is type and typing.get_origin(ta) is type:
+                            continue
                         # known finding D23: dict/Mapping types accept an open TypedDict whose declared values fit
-                        if typing_extensions_is_typeddict(tb) and typing.get_origin(ta) in (dict, collections.abc.Mapping) and skip_known:
+                        if typing_extensions_is_typeddict(tb) and skip_known and any(typing.get_origin(arm) in (dict, collections.abc.Mapping) for arm in ((typing.get_args(ta) if typing.get_origin(ta) is Union else ()) + (ta,))):
                             continue
                         # known finding D24: a TypedDict accepts dict[str, X] through its dict[str, ...] generic base (keys may be missing)
                         if typing_extensions_is_typeddict(ta) and typing.get_origin(tb) is dict and skip_known:
@@ -224,6 +258,14 @@ def search_types(skip_known=True):
             return f"{t} does not accept Never"
         if not TypedValue(object).is_assignable(v, ctx):
             return f"object does not accept {t}"
+    # one TypeObject serves every instantiation of a generic protocol: the verdict for one must not be reused for another
+    sink_int, sink_str, box = type_from_runtime(SinkP[int]), type_from_runtime(SinkP[str]), TypedValue(IntBox)
+    first = sink_str.is_assignable(box, ctx)
+    accepted_int = sink_int.is_assignable(box, ctx)
+    again = sink_str.is_assignable(box, ctx)
+    if first or again or not accepted_int:
+        return (f"SinkP[str] accepts IntBox (put(self, x: int)): {first} before and {again} after SinkP[int] was asked (SinkP[int] accepts it: {accepted_int}); "
+                f"'x' belongs to what SinkP[str].put accepts and not to what IntBox.put accepts")
     for (ta, va), (tb, vb), (tc, vc) in itertools.product(vals[:14], repeat=3):
         u = unite_values(vb, vc)
         if va.is_assignable(u, ctx) != (va.is_assignable(vb, ctx) and va.is_assignable(vc, ctx)):
